@@ -38,7 +38,11 @@ RULE = ("1-16 pthreads, each running a generated script of new / new[] / nothrow
         "acquire and release from the case's seed; second phases reuse blocks left over; misuse sub-scenarios: 12 kinds of misuse "
         "(non-allocated, allocator mismatch, guard overrun; free/delete/delete[]/realloc) in thread-safe and default mode, each "
         "followed by the next allocation in a helper thread under a 2 s deadline; malformed stream: lines with wrong owners, "
-        "unknown labels, bad thread ids (must be skipped). non-trivial = a concurrent run with >= 2 threads or a misuse")
+        "unknown labels, bad thread ids (must be skipped); wiring stream: histories of on/off and balanced "
+        "saveAndDisable/restore cycles (single, nested, repeated) and the fresh-process history (thread-safe mode switched on "
+        "before the first tracked allocation, so the cycle inside the first getGlobalDetector() runs under it), each followed by a "
+        "phase in which several threads use EVERY one of the 21 entry points. non-trivial = a concurrent run with >= 2 threads "
+        "or a misuse")
 
 SIZES = [1, 2, 7, 8, 16, 24, 31, 64, 100, 255, 1000, 4096]
 ALLOCS = [("new", "n"), ("newnt", "n"), ("newdbg", "n"), ("newdbgi", "n"),
@@ -132,6 +136,59 @@ class Gen:
         ops.append("run")
         return ops
 
+    def sweep(self, n, keep=0.25):
+        """a phase in which EVERY allocation and release entry point is used at least once (all 21 entry points: the
+        four new / four new[] forms, the five delete / five delete[] forms, malloc, calloc, realloc, free), spread over
+        the threads so that releases of one thread overlap allocations of another"""
+        rng = self.rng
+        ops = ["threads %d %d" % (n, rng.randint(1, 10 ** 9))]
+        for t in range(n):
+            self.held.setdefault(t, [])
+        pairs = []
+        for forms, rels, fam in ((["new", "newnt", "newdbg", "newdbgi", "new"], RELEASES["n"], "n"),
+                                 (["newarr", "newarrnt", "newarrdbg", "newarrdbgz", "newarr"], RELEASES["a"], "a")):
+            rels = list(rels)
+            rng.shuffle(rels)
+            for f, r in zip(forms, rels):
+                pairs.append((f, r, fam))
+        for f in ("malloc", "calloc", "mallocd", "realloc"):
+            pairs.append((f, "free", "m"))
+        rng.shuffle(pairs)
+        todo = []          # (thread, alloc line or None, [follow-up lines], label, family, keep)
+        for f, r, fam in pairs:
+            t = rng.randrange(n)
+            if f in ("malloc", "calloc") and (self.macro == "none" or (self.macro == "one" and t != 0)):
+                f = "mallocd"
+            lab = self.label()
+            follow = []
+            if fam == "m" and rng.random() < 0.6:
+                follow.append("t %d realloc b%d %d" % (t, lab, self.size()))
+            follow.append("t %d %s b%d" % (t, r, lab))
+            todo.append([t, "t %d %s b%d %d" % (t, f, lab, self.size()), follow, lab, fam])
+        pending = list(todo)
+        started = []
+        while pending or started:
+            if pending and (not started or rng.random() < 0.55):
+                it = pending.pop()
+                ops.append(it[1])
+                started.append(it)
+            else:
+                it = rng.choice(started)
+                ops.append(it[2].pop(0))
+                if not it[2]:
+                    started.remove(it)
+        # a few blocks stay with their threads
+        for _ in range(rng.randrange(0, 4)):
+            t = rng.randrange(n)
+            form, fam = rng.choice(ALLOCS)
+            if form in ("malloc", "calloc") and (self.macro == "none" or (self.macro == "one" and t != 0)):
+                form = "mallocd"
+            lab = self.label()
+            ops.append("t %d %s b%d %d" % (t, form, lab, self.size()))
+            self.held[t].append((lab, fam))
+        ops.append("run")
+        return ops
+
     def bad_line(self, n, t):
         rng = self.rng
         others = [(u, l) for u, ls in self.held.items() if u != t for l in ls]
@@ -154,7 +211,8 @@ class Gen:
             return "t %d take b%d" % (t, rng.randint(1, max(1, self.next_label)))    # nothing handed over
         if k == 6:
             return rng.choice(["t", "t 0", "t x new b1 8", "t 0 new c1 8", "t 0 new b99999 8", "t 0 new b1 0", "t 0 frob b1",
-                               "threads 0 1", "threads 99 1", "misuse nothing", "run now", "t 0 give b1 0", "", "cleanup x"])
+                               "threads 0 1", "threads 99 1", "misuse nothing", "run now", "t 0 give b1 0", "", "cleanup x",
+                               "restore", "fresh", "save x", "restore", "save\nrestore"])
         if k == 7 and self.held.get(t):
             lab, fam = rng.choice(self.held[t])
             return "t %d give b%d %d" % (t, lab, t)                         # hand-over to itself
@@ -167,14 +225,61 @@ def conc_case(rng, tier, malformed=False):
     big = tier != "quick"
     n = rng.choice([2, 2, 3, 4, 5, 8, 12, 16])
     steps = rng.choice([6, 20, 60, 150] if not big else [20, 100, 400, 1200])
-    ops = ["on"] if rng.random() < 0.93 or n > 1 else []
+    ops = ["fresh"] if rng.random() < 0.1 else ["on"]
+    if rng.random() < 0.2:
+        ops += save_restore(rng)
     ops += g.phase(n, steps, malformed=malformed)
     if rng.random() < 0.4:                      # second phase: another thread count, left-over blocks stay with their owners
         n2 = rng.choice([2, 3, 4, 8, 16])
+        if rng.random() < 0.3:
+            ops += save_restore(rng)
         ops += g.phase(n2, max(4, steps // 2), malformed=malformed)
     if rng.random() < 0.85:
         ops.append("cleanup")
     if rng.random() < 0.3:
+        ops.append("off")
+    return ops
+
+
+def save_restore(rng):
+    """balanced saveAndDisable / restore cycles: single, nested, repeated"""
+    k = rng.random()
+    if k < 0.5:
+        return ["save", "restore"]
+    if k < 0.75:
+        return ["save", "save", "restore", "restore"]
+    if k < 0.9:
+        return ["save", "restore", "save", "restore"]
+    return ["save", "save", "restore", "save", "restore", "restore"]
+
+
+def wiring_case(rng, tier):
+    """after ANY history of switches and balanced save / restore cycles that ends in thread-safe mode, every one of the
+    eleven pointers is on its locking wrapper: the phase that follows uses every entry point from several threads"""
+    g = Gen(rng)
+    g.macro = rng.choice(["none", "none", "one", "all"])
+    n = rng.choice([2, 2, 3, 4, 6])
+    v = rng.randrange(6)
+    if v == 0:        # fresh process: thread-safe mode on before the first tracked allocation (cycle inside getGlobalDetector)
+        ops = ["fresh"]
+    elif v == 1:
+        ops = ["fresh"] + save_restore(rng)
+    elif v == 2:
+        ops = ["on"] + save_restore(rng)
+    elif v == 3:      # a cycle in default mode first (the saved copies then hold the unlocked functions), then on + cycle
+        ops = save_restore(rng) + ["on"] + save_restore(rng)
+    elif v == 4:
+        ops = ["on", "off"] + save_restore(rng) + ["on"] + (save_restore(rng) if rng.random() < 0.5 else [])
+    else:             # threads have run before the cycle
+        ops = ["on"] + g.phase(n, rng.choice([4, 12, 30])) + save_restore(rng)
+    ops += g.sweep(n)
+    if rng.random() < 0.5:
+        ops += save_restore(rng) + g.sweep(rng.choice([2, 3, 5]))
+    if rng.random() < 0.4:
+        ops += g.phase(n, rng.choice([6, 20, 60] if tier == "quick" else [20, 100, 300]))
+    if rng.random() < 0.85:
+        ops.append("cleanup")
+    if rng.random() < 0.2:
         ops.append("off")
     return ops
 
@@ -212,8 +317,10 @@ def misuse_case(rng, threadsafe):
 def generate(rng, tier):
     quick = tier == "quick"
     out = []
-    for _ in range(200 if quick else 1200):
+    for _ in range(150 if quick else 1000):
         out.append(("conc", conc_case(rng, tier)))
+    for _ in range(45 if quick else 300):
+        out.append(("wiring", wiring_case(rng, tier)))
     for _ in range(14 if quick else 60):
         out.append(("malformed", conc_case(rng, tier, malformed=True)))
     for _ in range(8 if quick else 30):
@@ -250,6 +357,9 @@ def signature(r):
         return KNOWN_SIGNATURE
     if r.crash == "crash tsan" and r.agree and r.spec == "spec ok":
         return RACE_SIGNATURE
+    if not r.crash and r.spec and r.spec.startswith("spec FAIL") and "did not hold the detector lock" in r.spec:
+        # one class whatever entry forms are named in the message (otherwise every form is shrunk separately)
+        return "spec:underlying allocator call by a thread that did not hold the detector lock"
     return flow.default_signature(r)
 
 
@@ -282,6 +392,8 @@ def observe(r, rep):
             rep.count("entry." + ENTRY.get(w[3], w[3]))
         elif l.startswith("> misuse"):
             rep.count("misuse." + w[2])
+        elif l in ("> save", "> restore", "> fresh"):
+            rep.count("switch." + w[1])
         elif l == "> skip":
             rep.count("skipped_line")
         elif w and w[0] == "locks":
@@ -300,7 +412,10 @@ LEVEL_TEXT = ("Partial. Machine-checked Lean 4 theorems (no bound on threads, op
               "C10:misuse-report-while-locked); (2) wiring_complete by `decide` over the switch table regenerated from "
               "MemoryLeakWarningPlugin.cpp on every run (all 21 entry points go through the 11 pointers, each of the three switches "
               "assigns every pointer exactly once, every function installed by turnOnThreadSafeNewDeleteOverloads constructs the "
-              "scoped lock as its first statement and calls the same detector operations as the unlocked one); (3) for EVERY "
+              "scoped lock as its first statement and calls the same detector operations as the unlocked one); "
+              "save_restore_roundtrip by `decide` over the regenerated copy lists of saveAndDisableNewDeleteOverloads / "
+              "restoreNewDeleteOverloads (restore (save s) puts all 11 pointers back for the thread-safe, default and off "
+              "configurations, also nested, repeated and inside the first getGlobalDetector() call); (3) for EVERY "
               "interleaving of whole wrappers that respects the ownership discipline (distinct live ids, a thread releases / "
               "reallocates / hands over only blocks it holds, a block is taken only after it was given, no overrun): no misuse is "
               "ever reported, live ids stay distinct, the outstanding set after the threads finish is the union of what each thread "
@@ -308,7 +423,8 @@ LEVEL_TEXT = ("Partial. Machine-checked Lean 4 theorems (no bound on threads, op
               "different blocks commute; every release that is not reported released an outstanding block of the same family, and a "
               "release of a non-outstanding block is always reported. NOT proved, only observed on the generated schedules: absence of "
               "data races in the compiled code and the real mutex behaviour - the h_c10 harness runs 1-16 pthreads through all 21 real "
-              "entry points under ThreadSanitizer with pre-emption forced at every lock acquire/release and checks mutual exclusion, "
+              "entry points (also after save/restore cycles and in a fresh process) under ThreadSanitizer with pre-emption forced at "
+              "every lock acquire/release and checks mutual exclusion, "
               "one acquisition per operation, every underlying allocator call made under the lock, block contents, detector totals "
               "after join against the threads' own tables, that everything held can be released afterwards, and completion of the "
               "next allocation within 2 s after each of 12 kinds of misuse in thread-safe and default mode.")
